@@ -16,7 +16,12 @@ RULE = ("a value (rank 0-4, int/float, Python or numpy form, optional error), a 
         "crystal families, matching/no normalisation) is built under a *writing* working-unit configuration, written to "
         "the data model (DataModelDict, JSON text, XML text; System also through dump('system_model') to text, stream and "
         "file path), and read back under a *reading* configuration (named choices containing length, random seeds, SI; "
-        "3 in 4 pairs differ).  Non-trivial: JSON or XML text AND (a 'scaled' property, or a property/value of rank >= 2, "
+        "3 in 4 pairs differ).  Arrays are handed to atomman in six memory layouts with identical shape and numbers "
+        "(C-contiguous, transposed view, Fortran-ordered copy, last two axes swapped, every second element of a larger C or "
+        "Fortran array).  A Box that receives a model with model(model=...) exists beforehand with a different cell, alone "
+        "or inside a System, and has had its reciprocal vectors read / a Cartesian-to-relative conversion / a box-scaled "
+        "System.model done; afterwards its reciprocal vectors, both position maps and a box-scaled System.model are compared "
+        "with own numpy arithmetic on generated points.  Non-trivial: JSON or XML text AND (a 'scaled' property, or a property/value of rank >= 2, "
         "or writing and reading configurations differ)")
 ASSUMPTIONS = [
     "numericalunits attributes are the unit table; uc.reset_units applies a configuration (decided by C09; choices "
@@ -127,6 +132,58 @@ def check_array(what, got, shape, kind, exp, exact, tol=None, xml_len1=False):
         require(rel_ok(got, exp), lambda: '%s: physical value differs beyond %.0e relative, %s' % (what, REL, worst(got, exp)))
 
 
+_SENTINEL = {'f': np.nan, 'i': -7, 'u': 0, 'U': 'Q'}
+
+
+def lay(a, layout):
+    """array with the shape and elements of a in the memory layout named (see gens_c10.LAYOUTS); never shares a"""
+    a = np.asarray(a)
+    if a.ndim == 0 or layout == 'C' or (layout == 'X' and a.ndim < 2):
+        out = np.array(a, order='C')
+    elif layout == 'T':
+        out = np.ascontiguousarray(a.T).T                          # what np.array([x, y, z]).T gives
+    elif layout == 'F':
+        out = np.array(a, order='F')
+    elif layout == 'X':
+        out = np.ascontiguousarray(a.swapaxes(-1, -2)).swapaxes(-1, -2)
+    elif layout in ('S', 'SF'):
+        big = np.full(tuple(2 * k + 1 for k in a.shape), _SENTINEL[a.dtype.kind], dtype=a.dtype, order='C' if layout == 'S' else 'F')
+        sl = tuple(slice(1, 2 * k + 1, 2) for k in a.shape)
+        big[sl] = a
+        out = big[sl]
+    else:
+        raise ValueError(layout)
+    assert out.shape == a.shape and out.dtype == a.dtype and np.array_equal(out, a)
+    return out
+
+
+def lay_labels(arr, layout, labels):
+    """labels of one array of rank >= 2 given to atomman; True when it is not C-contiguous"""
+    if arr.ndim < 2:
+        if arr.ndim == 1 and not arr.flags['C_CONTIGUOUS']:
+            labels.add('strided1d')
+        return False
+    labels.add('lay_' + layout)
+    if arr.flags['C_CONTIGUOUS']:
+        return False
+    labels.add('nonC')
+    if not arr.flags['F_CONTIGUOUS']:
+        labels.add('nonC_nonF')
+    return True
+
+
+def scaled_tols(Vw, ow, smax):
+    """(tol_s, tol_x): relative coordinates s = (x-o).inv(V) computed by atomman, and Cartesian x back from stored s.
+    s = (x-o).inv(V): error <= c eps (|o| + |V||s|) |inv(V)|, c ~ 10 (one inverse, one product); observed maximum
+    1/90 of tol_s and 1/600 of tol_x over 16 000 cell/point sets (cells of gens.cells at four length scales)"""
+    vmax, omax = np.abs(Vw).max(), np.abs(ow).max()
+    ninv = np.abs(np.linalg.inv(Vw)).sum(axis=0).max()
+    tol_s = 3e-14 * (omax + vmax * smax) * ninv + 1e-15 * smax
+    floor = bool(np.any((np.abs(Vw) > 0) & (np.abs(Vw) <= 1e-8 * vmax)))     # a component at Box's 1e-9 zeroing floor
+    tol_x = 3 * tol_s * vmax + 3e-14 * (omax + vmax * smax) + (3e-8 * vmax * smax if floor else 0.0)
+    return tol_s, tol_x
+
+
 # ----------------------------------------------------------------------------- value: uc.model / uc.value_unit
 
 def oracle_value(case):
@@ -153,8 +210,11 @@ def oracle_value(case):
         else:
             # rank 0: a numpy scalar ('np') or a 0-d array ('np0d')
             as_arr = bool(shape) or form == 'np0d'
-            arg = np.asarray(xw) if as_arr else np.asarray(xw)[()]
-            earg = None if not has_err else np.asarray(ew) if as_arr else np.asarray(ew)[()]
+            arg = lay(xw, case.get('layout', 'C')) if as_arr else np.asarray(xw)[()]
+            earg = None if not has_err else lay(ew, case.get('elayout', 'C')) if as_arr else np.asarray(ew)[()]
+            lay_labels(np.asarray(arg), case.get('layout', 'C'), labels)
+            if has_err and lay_labels(np.asarray(earg), case.get('elayout', 'C'), set()):
+                labels.add('error_nonC')
         try:
             m = uc.model(arg, u, earg) if has_err else uc.model(arg, u)
         except AttributeError as ex:
@@ -215,6 +275,62 @@ def check_box(what, B, Vexp, oexp):
     require(rel_ok(Bo, oexp), lambda: '%s: origin differs: expected %r got %r' % (what, oexp, Bo))
 
 
+_PRIOR_V = np.array([[7.0, 0, 0], [0, 8.0, 0], [0, 0, 9.0]])
+_PRIOR_O = np.array([1.0, 1.0, 1.0])
+_SCALED_KW = {'box_unit': 'angstrom', 'prop_unit': {'atype': None, 'pos': 'scaled'}}
+
+
+def check_derived(what, B, rel, uses, system=None, enc='dict'):
+    """what a Box derives from its cell, against own numpy arithmetic on the vects/origin it reports (C01 decides the
+    maps as such; here they must belong to the cell the Box holds *now*).  uses: 'recip' reciprocal_vects, 'c2r' both
+    position maps at the points rel, 'scaled' a box-scaled System.model (of `system`, which holds B, or of a new System
+    given B) and its reading back."""
+    import atomman as am
+    Bv, Bo = np.array(B.vects, dtype=float), np.array(B.origin, dtype=float)
+    vmax, omax = np.abs(Bv).max(), np.abs(Bo).max()
+    smax = max(1.0, float(np.abs(rel).max()))
+    inv = np.linalg.inv(Bv)
+    tol_s, tol_x = scaled_tols(Bv, Bo, smax)
+    x = rel @ Bv + Bo
+    s_exp = np.linalg.solve(Bv.T, (x - Bo).T).T
+    for use in uses:
+        if use == 'recip':
+            R = np.asarray(B.reciprocal_vects, dtype=float)
+            require(R.shape == (3, 3), lambda: '%s: reciprocal_vects shape %r' % (what, R.shape))
+            # right residual of a computed inverse: |V X - I| <= c eps |V||X| (c ~ 10); observed maximum 1/40 of the bound
+            tol_i = 1e-14 * (np.abs(Bv) @ np.abs(inv)).max() + 1e-15
+            err = float(np.abs(Bv @ R.T - np.identity(3)).max())
+            require(err <= tol_i, lambda: '%s: vects @ reciprocal_vects.T differs from the identity by %.3g (tol %.3g): vects\n%r\n'
+                    'reciprocal_vects\n%r' % (what, err, tol_i, Bv, R))
+        elif use == 'c2r':
+            got = np.asarray(B.position_cartesian_to_relative(x), dtype=float)
+            require(got.shape == rel.shape, lambda: '%s: position_cartesian_to_relative shape %r' % (what, got.shape))
+            err = float(np.abs(got - s_exp).max())
+            require(err <= tol_s, lambda: '%s: position_cartesian_to_relative(%r) = %r, own (x-o).inv(V) = %r (differs by %.3g, tol %.3g)'
+                    % (what, x.tolist(), got.tolist(), s_exp.tolist(), err, tol_s))
+            got = np.asarray(B.position_relative_to_cartesian(rel), dtype=float)
+            tol_c = 1e-14 * (omax + 3 * vmax * smax)
+            err = float(np.abs(got - x).max()) if got.shape == x.shape else np.inf
+            require(err <= tol_c, lambda: '%s: position_relative_to_cartesian(%r) = %r, own s.V+o = %r (differs by %.3g, tol %.3g)'
+                    % (what, rel.tolist(), got.tolist(), x.tolist(), err, tol_c))
+        else:
+            n = len(rel)
+            if system is None:
+                system = am.System(atoms=am.Atoms(atype=np.ones(n, dtype=np.int64), pos=x.copy()), box=B)
+            else:
+                system.atoms.view['pos'][:] = x             # the atoms sit at rel in the cell the box has now
+            m = system.model(**_SCALED_KW)
+            pm = [q for q in m['atomic-system']['atoms'].aslist('property') if q['name'] == 'pos'][0]
+            require(pm['data'].get('unit') == 'scaled', lambda: '%s: scaled pos stored with unit %r' % (what, pm['data'].get('unit')))
+            st_ = np.asarray(pm['data']['value'], dtype=float)
+            require(st_.size == s_exp.size and float(np.abs(st_.reshape(s_exp.shape) - s_exp).max()) <= tol_s,
+                    lambda: '%s: box-scaled System.model stores pos %r, own (x-o).inv(V) = %r (tol %.3g) for the cell\n%r origin %r'
+                    % (what, st_.tolist(), s_exp.tolist(), tol_s, Bv, Bo))
+            s3 = am.System(model=encode(m, enc, what + ' [scaled System.model]'))
+            check_box(what + ' [scaled System.model read back]', s3.box, Bv, Bo)
+            check_array(what + ' [scaled System.model read back] pos', s3.atoms.view['pos'], (n, 3), 'f', x, exact=False, tol=tol_x)
+
+
 def oracle_box(case):
     import atomman as am
     c = case['cell']
@@ -225,6 +341,9 @@ def oracle_box(case):
     u = 'angstrom' if unit == 'default' else unit
     labels.add('unit_default' if unit == 'default' else 'unit_given')
     what = 'Box.model(length_unit=%s) via %s' % (unit, case['enc'])
+    rel = np.array(case.get('pts') or [[0.25, 0.5, 0.75]], dtype=float)
+    prior = case.get('prior') or {'cell': None, 'host': False, 'uses': []}
+    enc = case['enc']
     try:
         apply_cfg(case['cfgW'])
         fa = factor('angstrom')
@@ -237,16 +356,35 @@ def oracle_box(case):
         Vu = np.asarray(B.vects) / fu
         require(stored.shape == (3, 3) and bool(np.all(np.abs(stored - Vu) <= REL * np.abs(Vu))),
                 lambda: '%s: stored vectors are not the cell in %s:\n%r\nexpected\n%r' % (what, u, stored, Vu))
-        payload = encode(m, case['enc'], what)
+        payload = encode(m, enc, what)
         apply_cfg(case['cfgR'])
         fr = factor('angstrom')
+        host = None
         if case['ctor']:
             B2 = am.Box(model=payload)
+            labels.add('fresh')
         else:
-            B2 = am.Box(vects=[[7.0, 0, 0], [0, 8.0, 0], [0, 0, 9.0]], origin=[1.0, 1.0, 1.0])
+            # the receiving Box exists with another cell and has been used
+            pc = prior['cell']
+            Vp, op = (gens.cell_vects(pc), gens.cell_origin(pc)) if pc else (_PRIOR_V, _PRIOR_O)
+            B2 = am.Box(vects=Vp * fr, origin=op * fr)
+            if prior['host']:
+                host = am.System(atoms=am.Atoms(atype=np.ones(len(rel), dtype=np.int64), pos=rel @ B2.vects + B2.origin), box=B2)
+                B2 = host.box
+                labels.add('in_system')
+            uses = list(prior['uses'])
+            wp = what + ' [before loading, receiving Box%s with its first cell]' % (' of a System' if host is not None else '')
+            check_derived(wp, B2, rel, uses, system=host, enc=enc)
+            labels.add('prior_used' if uses else 'prior_unused')
+            for use in uses:
+                labels.add('prior_' + use)
+            if not np.allclose(Vp, V, rtol=1e-6, atol=0.0):
+                labels.add('prior_cell_differs')
             ret = B2.model(model=payload)
             require(ret is None, lambda: '%s: model(model=...) returned %r' % (what, ret))
+            what += ' into an existing Box%s (used before: %s)' % (' of a System' if host is not None else '', ', '.join(uses) or 'nothing')
         check_box(what, B2, V * fr, o * fr)
+        check_derived(what + ' [after loading]', B2, rel, ('recip', 'c2r', 'scaled'), system=host, enc=enc)
     finally:
         restore_units()
     if case['enc'] != 'dict' and differ:
@@ -262,7 +400,7 @@ def build_props(case, Vw=None, ow=None):
     out = []
     for p in case['props']:
         kind, u, shape = p['kind'], p['unit'], tuple(p['shape'])
-        d = {'name': p['name'], 'shape': shape, 'kind': kind, 'unit': u}
+        d = {'name': p['name'], 'shape': shape, 'kind': kind, 'unit': u, 'layout': p.get('layout', 'C')}
         if kind == 's':
             d['arr'] = np.array(p['values'], dtype=str)
             d['raw'] = p['values']
@@ -283,6 +421,27 @@ def build_props(case, Vw=None, ow=None):
             d['xu'] = x
         out.append(d)
     return out
+
+
+def atoms_kwargs(case, props, atype, pos):
+    """keyword arguments for am.Atoms: every array in its drawn memory layout (same shape and elements)"""
+    kw = {'atype': lay(atype, case.get('atype_layout', 'C')), 'pos': lay(pos, case.get('pos_layout', 'C'))}
+    for d in props:
+        kw[d['name']] = lay(d['arr'], d['layout'])
+    return kw
+
+
+def layout_labels(case, kw, props, sel, labels):
+    """layouts of the arrays that are written (selected properties only)"""
+    if 'pos' in sel and lay_labels(kw['pos'], case.get('pos_layout', 'C'), labels):
+        labels.add('pos_nonC')
+    if 'atype' in sel:
+        lay_labels(kw['atype'], 'C', labels)
+    for d in props:
+        if d['name'] in sel and lay_labels(kw[d['name']], d['layout'], labels):
+            labels.add('prop_nonC')
+            if d['unit'] is None:
+                labels.add('prop_nonC_nounit')
 
 
 def selection(case, names, units):
@@ -346,7 +505,8 @@ def oracle_atoms(case):
         pos_ang = np.array(case['pos'], dtype=float)
         atype = np.array(case['atype'], dtype=np.int64)
         props = build_props(case)
-        a = am.Atoms(atype=atype, pos=pos_ang * fa, **{d['name']: d['arr'].copy() for d in props})
+        akw = atoms_kwargs(case, props, atype, pos_ang * fa)
+        a = am.Atoms(**akw)
         names = ['atype', 'pos'] + [d['name'] for d in props]
         units = {'atype': None, 'pos': case['pos_unit']}
         units.update({d['name']: d['unit'] for d in props})
@@ -354,6 +514,7 @@ def oracle_atoms(case):
         labels.add('defaults' if not kw else 'kw_' + case['how'])
         if len(sel) < len(names):
             labels.add('subset')
+        layout_labels(case, akw, props, sel, labels)
         m = a.model(**kw)
         listed = [pm['name'] for pm in m['atoms'].aslist('property')]
         require(listed == list(sel), lambda: '%s: model lists properties %r, requested %r' % (what, listed, list(sel)))
@@ -411,7 +572,8 @@ def oracle_system(case):
         posw = s @ Vw + ow
         atype = np.array(case['atype'], dtype=np.int64)
         props = build_props(case, Vw, ow)
-        atoms = am.Atoms(atype=atype, pos=posw.copy(), **{d['name']: d['arr'].copy() for d in props})
+        akw = atoms_kwargs(case, props, atype, posw)
+        atoms = am.Atoms(**akw)
         amax = int(atype.max())
         system = am.System(atoms=atoms, box=box, pbc=list(case['pbc']),
                            symbols=None if case['symbols'] is None else list(case['symbols']),
@@ -430,19 +592,15 @@ def oracle_system(case):
         if case['box_unit'] is not None:
             kw['box_unit'] = case['box_unit']
         labels.add('box_unit_default' if case['box_unit'] is None else 'box_unit_given')
+        layout_labels(case, akw, props, sel, labels)
 
         # conditioning of the scaled storage (own solve)
-        vmax, omax, smax = np.abs(Vw).max(), np.abs(ow).max(), 1.0
+        vmax, smax = np.abs(Vw).max(), 1.0
         for d in props:
             if d['unit'] == 'scaled':
                 smax = max(smax, float(np.abs(d['s']).max()))
         smax = max(smax, float(np.abs(s).max()))
-        ninv = np.abs(np.linalg.inv(Vw)).sum(axis=0).max()
-        # s = (x-o).inv(V): error <= c eps (|o| + |V||s|) |inv(V)|, c ~ 10 (one inverse, one product); observed maximum
-        # 1/90 of tol_s and 1/600 of tol_x over 16 000 cell/point sets (cells of gens.cells at four length scales)
-        tol_s = 3e-14 * (omax + vmax * smax) * ninv + 1e-15 * smax
-        floor = bool(np.any((np.abs(Vw) > 0) & (np.abs(Vw) <= 1e-8 * vmax)))     # a component at Box's 1e-9 zeroing floor
-        tol_x = 3 * tol_s * vmax + 3e-14 * (omax + vmax * smax) + (3e-8 * vmax * smax if floor else 0.0)
+        tol_s, tol_x = scaled_tols(Vw, ow, smax)
 
         # ---- write
         m = None
